@@ -22,6 +22,31 @@ CHECKS = {
         design='5 (C08), 3.2 (H-bits)'),
 }
 
+CHECKS['C16'] = dict(
+    engine='h-runtime',
+    technique='Lean 4 proof (invariant by induction over all API histories of the runtime model) + '
+              'event-stream correspondence with the generated C tracer',
+    text='Full over the model: stores_under_flag, flag_restored (every store of every history under flag 1; flag 0 at '
+         'every API return) and callbacks_under_flag (every callback and store of a tracing call after its enable test) '
+         'are proved for all configurations, histories, platform scripts and buffer sizes. The runtime model is a '
+         'line-by-line transcription of barectf.c.j2 compared with the compiled generated tracer on random histories '
+         '(flag sampled at every callback entry/exit and API return).',
+    note='Trusted: Lean kernel and standard axioms; the model-vs-code tie is differential (H-runtime generators); '
+         'the entry clock sample of a tracing call is outside the section by construction of the code (reading recorded '
+         'in the evidence); asynchronous observers are represented by callback/store instants.',
+    design='5 (C16), 3.2 (H-runtime)')
+CHECKS['C07'] = dict(
+    engine='h-runtime',
+    technique='Lean 4 proof (no-op lemma + commutation of every in-section function with an arbitrary change of the '
+              'enable flag and toggle script) + event-stream correspondence + metamorphic toggle test on the C tracer',
+    text='Full over the model: disabled_trace_is_noop, disabled_period_is_noop and trace_atomic_wrt_toggle (a call past '
+         'its enable test yields the same buffer, event log and context whatever the enable flag and toggle script are) '
+         'are proved for all configurations, arguments and states. Tie: H-runtime with toggles at random callback '
+         'positions; implementation-side metamorphic pairs (same history with/without in-call toggles).',
+    note='Trusted: Lean kernel and standard axioms; differential tie; interrupt between clock sample and enable test is '
+         'not expressible at callback granularity (not claimed).',
+    design='5 (C07), 3.2 (H-runtime)')
+
 NOT_APPLICABLE = {
 }
 
@@ -61,6 +86,7 @@ def main():
         'engines': [
             {'name': 'lean', 'path': 'lean', 'serves_properties': sorted(CHECKS), 'kind_free_text': 'Lean 4 model (lean/BVM/Model), proofs (lean/BVM/Proofs), property theorems (lean/BVM/Props), compiled line-protocol driver (lean/Driver)'},
             {'name': 'h-bits', 'path': 'harness/hbits.py', 'serves_properties': ['C08'], 'kind_free_text': 'exhaustive-shape differential of the rendered bit-field macros vs the Lean model vs a bit-by-bit reference'},
+            {'name': 'h-runtime', 'path': 'harness/hrt.py', 'serves_properties': [p for p in sorted(CHECKS) if CHECKS[p]['engine'] == 'h-runtime'], 'kind_free_text': 'scripted-platform history runner for the generated tracer (guard-paged buffer, forked per history) vs the Lean runtime model'},
         ],
         'checks': checks,
         'not_applicable': na,
